@@ -275,6 +275,41 @@ for v in range(8 * SCALE):
         rep.violation("impl-vs-spec", f"a KSR was chained to a previous SKR whose last bundle is signed by a key that is not on the token (published under the identifier "
                       f"{ours['id']!r} next to our own key); the token holds only our key",
                       {"kind": "file-two-keys-one-identifier", "xml": ksrxml.render_skr(doc), "num_bundles": n, "token": {ours["id"]: base64.b64encode(ours["pub"]).decode()[:24]}})
+# ---- file to verdict: the first bundle publishes a foreign key under our identifier (and is signed by it); the later bundles publish our key
+# but their signatures are still the foreign key's. None of the later bundles verifies: the file is not ours.
+for v in range(3 * SCALE):
+    zskpol = ksrxml.default_zsk_policy()
+    n = R.choice([2, 3, 9])
+    fresh_id = f"Kcur-{v}-{R.randrange(10**6)}"          # an identifier this process has not met before
+    ours = dict(KSKS["ksk_current"], id=fresh_id)
+    skr = skrgen.simulate_skr(skrgen.honest_request("prev-req", T0, n, [[ZSKS[0], ZSKS[1]]] + [[ZSKS[1]]] * (n - 2) + [[ZSKS[1], ZSKS[2]]], zskpol, sign=False),
+                              SCHEMA1, {**KSKS, "ksk_current": ours}, ksrxml.default_zsk_policy())
+    foreign = dict(ksrxml.mk_key(_rsa.generate_private_key(65537, 1024), alg=8, flags=257, ident=fresh_id), ttl=172800)
+    doc = copy.deepcopy({**skr, "bundles": [dict(b) for b in skr["bundles"]]})
+    for j, b in enumerate(doc["bundles"]):
+        zs = [k for k in b["keys"] if k["flags"] == 256]
+        signed_set = zs + [foreign]
+        b["keys"] = signed_set if j == 0 else zs + [dict(ours, ttl=172800)]
+        sg = ksrxml.mk_sig(foreign, b["keys"], b["inc"], b["exp"])
+        b["sigs"] = [sg]
+    path = os.path.join(tmpd, "prev-swapped.xml")
+    with open(path, "w") as f:
+        f.write(ksrxml.render_skr(doc))
+    loader_cases += 1
+    hist["file-key-swapped-after-first-bundle"] = hist.get("file-key-swapped-after-first-bundle", 0) + 1
+    r = vlib.run_impl(load_skr, path, ResponsePolicy(num_bundles=n))
+    if r[0] == "ok":
+        rep.violation("impl-vs-spec", f"a previous SKR whose bundles 2..{n} carry signatures that do not verify under the key they publish (made by a foreign key that bundle 1 "
+                      f"published under the same identifier {ours['id']!r}) was loaded as valid",
+                      {"kind": "file-key-swapped-after-first-bundle", "xml": ksrxml.render_skr(doc), "num_bundles": n})
+    # and the honest file right after it, in the same process, is still ours
+    with open(path, "w") as f:
+        f.write(ksrxml.render_skr(skr))
+    r = vlib.run_impl(load_skr, path, ResponsePolicy(num_bundles=n))
+    loader_cases += 1
+    if r[0] != "ok":
+        rep.violation("impl-vs-spec", f"an honest previous SKR is refused ({r[2]}) after another file with a foreign key under the same identifier was read in this process",
+                      {"kind": "honest-after-foreign", "xml": ksrxml.render_skr(skr), "num_bundles": n})
 import shutil
 
 shutil.rmtree(tmpd, ignore_errors=True)
